@@ -17,23 +17,26 @@ MAP = {
     "demeter/uniswap/market.py": ["C09", "C07", "C08", "C04", "C03", "C01"],
     "demeter/aave/core.py": ["C11", "C13", "C12", "C10"],
     "demeter/aave/market.py": ["C13", "C11", "C10", "C12", "C04", "C03"],
-    "demeter/aave/helper.py": ["C10", "C13"],
+    "demeter/aave/helper.py": ["C10", "C13", "C12", "C11"],
     "demeter/squeeth/market.py": ["C14", "C04", "C03", "C01"],
-    "demeter/deribit/market.py": ["C15", "C16", "C04", "C02", "C01"],
-    "demeter/deribit/helper.py": ["C15", "C16"],
+    "demeter/deribit/market.py": ["C15", "C16", "C04", "C05", "C02", "C01"],
+    "demeter/deribit/helper.py": ["C15", "C16", "C02"],
     "demeter/gmx/market.py": ["C17", "C04", "C03"],
-    "demeter/gmx/market2.py": ["C17", "C04", "C03"],
+    "demeter/gmx/market2.py": ["C17", "C04", "C03", "C05"],
+    "demeter/gmx/gmx_v2/MarketUtils.py": ["C17"],
+    "demeter/result/metrics/core.py": ["C20"],
     "demeter/gmx/gmx_v2/SwapPricingUtils.py": ["C17"],
     "demeter/gmx/gmx_v2/ExecuteDepositUtils.py": ["C17"],
     "demeter/gmx/gmx_v2/ExecuteWithdrawUtils.py": ["C17"],
     "demeter/strategy/trigger.py": ["C18"],
-    "demeter/core/actuator.py": ["C05", "C02", "C01", "C18"],
+    "demeter/core/actuator.py": ["C05", "C02", "C01", "C18", "C19"],
     "demeter/core/backtest.py": ["C19"],
     "demeter/result/metrics/calculator.py": ["C20"],
     "demeter/broker/broker.py": ["C01", "C03", "C04"],
-    "demeter/broker/_typing.py": ["C03", "C04", "C05"],
+    "demeter/broker/_typing.py": ["C03", "C04", "C05", "C01"],
 }
-SKIP_FUNCS = {"__str__", "__repr__", "formatted_str", "description", "load_data", "load_pkl_data", "load_uni_v3_data", "get_output",
+SKIP_FUNCS = {"update_fee_old", "amounts_relation", "get_sqrt", "position_to_df", "load_aave_data", "decode_instrument", "to_array",
+              "get_names", "check_backtest", "amount_in_wei", "__str__", "__repr__", "formatted_str", "description", "load_data", "load_pkl_data", "load_uni_v3_data", "get_output",
               "to_dataframe", "_resample_check", "print_broker", "output", "save_result", "get_greeks", "get_delta_gamma",
               "find_tick_range_at_rate", "config_log", "load_deribit_option_data", "__hash__", "__eq__"}
 CMP = {ast.Lt: "<=", ast.LtE: "<", ast.Gt: ">=", ast.GtE: ">", ast.Eq: "!=", ast.NotEq: "=="}
